@@ -574,6 +574,42 @@ def setup(pt):
     return src, ed, mass_lines, symbols, exp, consts
 
 
+def first_touch_probe(run: Run, pt):
+    """the row an atom reports must not depend on whether it is the very first neutron access of the
+    process: each probe atom is the first touch of a fresh interpreter and must report what the (already
+    swept) loaded table reports"""
+    import json as _json
+    import os
+    import subprocess
+    import sys
+    from ..common import REPO
+    probes = [(1, 2), (3, 6), (62, 149), (1, 6), (2, 3), (64, 157), (26, 0), (1, 0), (94, 239), (80, 196)]
+    code = ("import sys, json; sys.path.insert(0, %r); import periodictable as pt\n"
+            "z, a = int(sys.argv[1]), int(sys.argv[2])\n"
+            "x = pt.elements[z][a] if a else pt.elements[z]\n"
+            "n = x.neutron\n"
+            "print(json.dumps([repr(getattr(n, k, 'absent')) for k in ('b_c', 'b_c_i', 'total', 'absorption', 'abundance')] + [repr(n.has_sld())]))\n"
+            % str(REPO))
+    for z, a in probes:
+        try:
+            x = pt.elements[z][a] if a else pt.elements[z]
+        except KeyError:
+            continue
+        n = x.neutron
+        want = [repr(getattr(n, k, "absent")) for k in ("b_c", "b_c_i", "total", "absorption", "abundance")] + [repr(n.has_sld())]
+        p = subprocess.run([sys.executable, "-c", code, str(z), str(a)], capture_output=True, text=True, timeout=300,
+                           env=dict(os.environ, PYTHONDONTWRITEBYTECODE="1"))
+        run.count(key=("first-touch", z, a), nontrivial=a != 0, tag="first-touch")
+        if p.returncode != 0:
+            run.violation("first neutron access through %r raises: %s" % ((z, a), p.stderr.strip()[-200:]),
+                          dict(kind="first-touch", z=z, a=a), observable="first-touch")
+            continue
+        got = _json.loads(p.stdout.strip().splitlines()[-1])
+        if got != want:
+            run.violation("the first neutron access of a process, made through %r, reports %r; the loaded table reports %r"
+                          % ((z, a), got, want), dict(kind="first-touch", z=z, a=a), observable="first-touch")
+
+
 def run(run: Run) -> int:
     pt = import_repo()
     from periodictable import mass, density, nsf, nsf_tables
@@ -601,6 +637,7 @@ def run(run: Run) -> int:
     nsf.init(priv)
     sweep(run, "private", priv, exp, mass_lines, src, ed, symbols, nontrivial, wl_oracle)
     P.drop_private(priv)
+    first_touch_probe(run, pt)
     run.exhaustive = True
     n = 30 if run.tier == "quick" else 1500
     real_rows = src["nsftable"].split("\n")
